@@ -13,6 +13,8 @@ contract(D + 'stack_training_data', props=['C10', 'C04', 'C07'],
                   "result.shape[1] == data.shape[1] * window_size",
                   # columns [jN,(j+1)N) of row i are row i+j of the input
                   ("cells", _CELL % ("data.shape[0] - window_size + 1", "window_size", "result")),
+                  # ghost: the sensor count N of a stacked matrix is the column count of the series it was built from
+                  ("def:sensors", "sensors(result, window_size) == data.shape[1]"),
                   "fresh(result)"],
          ghost={'mode': 'lambda'},
          loops={1: dict(inv=[_CELL % ("i", "window_size", "stacked_training_data")],
@@ -42,7 +44,8 @@ contract(D + 'pad_missing_labels', props=['C04', 'C10'],
          requires=["window_size >= 1"],
          ensures=["len(result) == len(original_labels) + window_size - 1",
                   ("front-margin", "forall(0, (window_size - 1)//2, lambda i: result[i] == -1)"),
-                  ("interior", "forall(0, len(original_labels), lambda i: result[(window_size - 1)//2 + i] == original_labels[i])"),
+                  ("interior", "forall(0, len(original_labels), lambda i: result[(window_size - 1)//2 + i] == original_labels[i], "
+                   "pat=(result[(window_size - 1)//2 + i],))"),
                   ("back-margin", "forall((window_size - 1)//2 + len(original_labels), len(result), lambda i: result[i] == -1)"),
                   "fresh(result)", "unchanged(original_labels)"])
 
@@ -95,7 +98,10 @@ contract(D + 'stack_training_data_multiple_series', props=['C10', 'C07', 'C04'],
          ensures=[("row-offsets-are-the-prefix-sums-of-the-stacked-lengths", "row_offset(result, 0) == 0 and "
                    "forall(0, len(all_series), lambda s: row_offset(result, s + 1) == row_offset(result, s) + all_series[s].shape[0] - window_size + 1) and "
                    "result.shape[0] == row_offset(result, len(all_series))"),
+                  ("row-offsets-as-prefix-sums", "forall(0, len(all_series) + 1, lambda s: row_offset(result, s) == "
+                   "psum(lambda t: all_series[t].shape[0] - window_size + 1, s, len(all_series)))"),
                   "result.shape[1] == all_series[0].shape[1] * window_size",
                   # every stacked row lies inside one series: row (offset(s)+i) is window i of series s and of no other
                   ("concatenation-of-the-individual-stackings", _MS_CELL.format(n="len(all_series)", res="result")),
+                  ("def:sensors", "sensors(result, window_size) == all_series[0].shape[1]"),
                   "fresh(result)", "unchanged(all_series)", "forall(0, len(all_series), lambda s: unchanged(all_series[s]))"])
